@@ -244,6 +244,37 @@ func runC05HTTP(o *hx.Out, r *hx.Rand, thorough bool) {
 			stop()
 		} // otherwise closing the test server would wait for that handler for ever: leave it
 	}
+	// (c4) a call made with a context that is already done: whatever NewStream returns, every operation on it returns
+	for _, t := range bothTransports(echoSvc()) {
+		for _, how := range []string{"cancelled", "deadline passed"} {
+			ctx, cancel := context.WithCancel(context.Background())
+			if how == "cancelled" {
+				cancel()
+			} else {
+				cancel()
+				ctx, cancel = context.WithDeadline(context.Background(), time.Now().Add(-time.Second))
+			}
+			cs, err := t.ch.NewStream(ctx, hx.StreamDescOf("BD"), "/verif.Svc/BD")
+			res := map[string]bool{}
+			if err == nil {
+				res["header_returns"] = within(bound, func() { cs.Header() })
+				res["recv_returns"] = within(bound, func() { cs.RecvMsg(&hx.Msg{}) })
+				res["send_returns"] = within(bound, func() { cs.SendMsg(&hx.Msg{}) })
+				res["close_send_returns"] = within(bound, func() { cs.CloseSend() })
+				res["trailer_returns"] = within(bound, func() { cs.Trailer() })
+				res["header_again_returns"] = within(bound, func() { cs.Header() })
+				runtime.KeepAlive(cs)
+			}
+			cancel()
+			ok := true
+			for _, v := range res {
+				ok = ok && v
+			}
+			probe("context_done_before_the_call_"+t.name, ok, map[string]interface{}{"transport": t.name, "context": how, "new_stream_error": fmt.Sprint(err), "completed": res},
+				"an operation on a stream whose context was done before the call did not return")
+		}
+		t.stop()
+	}
 	// (d) KNOWN FINDING F15: a receive issued before CloseSend after the handler has returned
 	{
 		svc := &hx.Svc{Stream: func(kind string, ss grpc.ServerStream) error { return nil }}
